@@ -434,7 +434,7 @@ int main(void)
 			free(f);
 			name_sect = a; name_opt = b;
 			type = mpt_parse_format(&pf, fmt_str);
-			printf("R ok type=%d fcn=%s | C ss=%u se=%u os=%u as=%u oe=%u esc=", type, mpt_parse_next_fcn(type) ? "yes" : "no",
+			printf("R ok type=%d fcn=%s | I ss=%u se=%u os=%u as=%u oe=%u esc=", type, mpt_parse_next_fcn(type) ? "yes" : "no",
 			       pf.sstart, pf.send, pf.ostart, pf.assign, pf.oend);
 			drv_puthex(stdout, pf.esc, sizeof(pf.esc));
 			printf(" com=");
